@@ -190,7 +190,12 @@ def seek_trait():
             ('wf_kept', P10, 'final(self).seek_wf()'),
             ('stream_kept', P10, 'final(self).sk() == old(self).sk() && final(self).sorigin() == old(self).sorigin() && final(self).smod() == old(self).smod() && final(self).sbs() == old(self).sbs()'),
             ('seeked', P10, 'r is Ok ==> final(self).sstate() == wseek_state(old(self).sk(), old(self).sorigin(), old(self).smod(), old(self).sbs(), pos.sn_val())'),
-            ('err_untouched', P10, 'r is Err ==> final(self).sstate() == old(self).sstate()')]),
+            ('err_untouched', P10, 'r is Err ==> final(self).sstate() == old(self).sstate()'),
+            ('ok_within_counter_range', ('C11',), 'r is Ok ==> pos.sn_val() < old(self).smod() * old(self).sbs()'),
+            # the only successful seeks beyond the end of the keystream (smod - 1 blocks) are those INTO the block after the last one
+            ('beyond_end_only_into_last_block', ('C11',), 'r is Ok ==> pos.sn_val() <= (old(self).smod() - 1) * old(self).sbs() || (pos.sn_val() / old(self).sbs() == old(self).smod() - 1 && pos.sn_val() % old(self).sbs() != 0)'),
+            # C11: a seek beyond the end of the keystream must be an error, not a wrap
+            ('ok_only_within_keystream', ('C11',), 'r is Ok ==> pos.sn_val() <= (old(self).smod() - 1) * old(self).sbs()')]),
     }, drop_fns=['current_pos', 'seek'])
 
 
@@ -230,6 +235,14 @@ def wrapper_seek():
         proof {
             self.core.lemma_pos_coherent();
             T::lemma_counter_val(block_pos);
+            vstd::arithmetic::div_mod::lemma_fundamental_div_mod(p, bs);
+            let mm = T::pos_modulus();
+            assert(p < mm * bs) by (nonlinear_arith)
+                requires p == bs * (p / bs) + p % bs, 0 <= p % bs < bs, 0 <= p / bs < mm, bs >= 1;
+            assert(p / bs <= mm - 2 ==> p <= (mm - 1) * bs) by (nonlinear_arith)
+                requires p == bs * (p / bs) + p % bs, 0 <= p % bs < bs, 0 <= p / bs < mm, bs >= 1;
+            assert(p / bs == mm - 1 && p % bs == 0 ==> p <= (mm - 1) * bs) by (nonlinear_arith)
+                requires p == bs * (p / bs) + p % bs;
             assert(a == (KAbs { base: o0.base, pos: (o0.pos + p / bs) % T::pos_modulus() }));
         }
 ''', '6': '''
